@@ -41,7 +41,7 @@ CLAIMS = {
         text='Partial: literal leaves reach the document byte for byte, raw text is rebuilt child by child, multi-line inline raw is copied verbatim, and transformers downstream of rendering are inventoried (one known finding: trailing-blank stripping, which C11 demands).',
         design_ref='DESIGN.md §2 C10'),
     'C05': dict(
-        technique='guarded-by (dominating erroneous() edge), partial-operation inventory with discharge rules over MIR Assert terminators and panicking callees incl. character-boundary provenance of str slice bounds, loop-shape and size-change (descending recursion) analysis',
+        technique='guarded-by on MIR normalised by helper expansion and combinator desugaring (dominating erroneous() edge incl. guards carried by constructed values; refusal sites by edge-cut reachability), partial-operation inventory with discharge rules over MIR Assert terminators and panicking callees incl. character-boundary provenance of str slice bounds, loop-shape and size-change (descending recursion) analysis',
         text='Every panic site in typstyle\'s own code reachable from a whole-document entry is an obligation discharged by a dominating kind/bound guard, a size provenance, a byte-offset provenance (str slices), a benign class or a one-line axiom about parser output; refusal and fallback are decided by dominance; loops and recursive cycles are shown to make progress on the finite tree. Found and repaired F1/F2.',
         design_ref='DESIGN.md §2 C05'),
     'C13': dict(
